@@ -471,3 +471,178 @@ Qed.
 
 Lemma groups_Groups : forall l gs r2, groups l = (gs, r2) -> Groups l gs r2.
 Proof. intros l gs r2. apply (groups_Groups_aux (length l)). lia. Qed.
+
+(* ------------------------------------------------------------------------- *)
+(* 4. The integer part: sign, first digit run, comma groups                   *)
+(* ------------------------------------------------------------------------- *)
+
+Lemma step'_comma : forall s i,
+  sc s = None -> aligned_comma (prefix_len s) (comma_pos s) i = true -> 0 < i ->
+  step' s i 44 = Cont (comma_st s i).
+Proof.
+  intros s i Hs Ha Hi. unfold step'.
+  assert (E : (i =? 0) = false) by lia. rewrite E. cbn [andb].
+  rewrite Hs, Ha. reflexivity.
+Qed.
+
+Lemma run'_groups : forall l gs r2, Groups l gs r2 -> forall s i pre,
+  sc s = None -> aligned_comma (prefix_len s) (comma_pos s) i = true -> 0 < i ->
+  mantissa s = Z.of_N (digits_val pre) ->
+  exists s' i',
+    run' s i l = run' s' i' r2 /\
+    i' + N.of_nat (length r2) = i + N.of_nat (length l) /\
+    comma_pos s' = (if nonempty gs then Some i' else comma_pos s) /\
+    format s' = (if nonempty gs then Some Comma3Dot else format s) /\
+    mantissa s' = Z.of_N (digits_val (pre ++ gs)) /\
+    sc s' = None /\ prefix_len s' = prefix_len s /\ sign s' = sign s /\
+    has_digit s' = has_digit s || nonempty gs /\
+    i <= i' /\ (gs = [] -> s' = s /\ i' = i).
+Proof.
+  intros l gs r2 HG.
+  induction HG as [l Hstop | a b c r gs rest Ha Hb Hc HG IH]; intros s i pre Hs Hal Hi Hm.
+  - exists s, i. cbn [nonempty]. rewrite app_nil_r, orb_false_r.
+    repeat split; auto. lia.
+  - change (run' s i (44 :: a :: b :: c :: r)) with
+      (match step' s i 44 with
+       | Cont s' => run' s' (i + 1) ([a; b; c] ++ r)
+       | Stop x => Stop x
+       end).
+    rewrite (step'_comma _ _ Hs Hal Hi).
+    assert (Hd : Forall dig [a; b; c]) by (repeat constructor; assumption).
+    rewrite run'_digits; [|exact Hd|].
+    2:{ intros q Hq. cbn [comma_st comma_pos] in Hq. inversion Hq; subst. cbn [length]. lia. }
+    cbn [length]. replace (i + 1 + N.of_nat 3) with (i + 4) by lia.
+    set (s1 := after (comma_st s i) (i + 1) [a; b; c]).
+    assert (Hs1 : sc s1 = None) by (apply after_sc_none; exact Hs).
+    assert (Hc1 : comma_pos s1 = Some (i + 4)) by (unfold s1; rewrite after_comma_pos; reflexivity).
+    assert (Hp1 : prefix_len s1 = prefix_len s) by (unfold s1; rewrite after_prefix_len; reflexivity).
+    assert (Hg1 : sign s1 = sign s) by (unfold s1; rewrite after_sign; reflexivity).
+    assert (Hf1 : format s1 = Some Comma3Dot).
+    { unfold s1. rewrite after_format_keep; [reflexivity|]. right. cbn. discriminate. }
+    assert (Hm1 : mantissa s1 = Z.of_N (digits_val (pre ++ [a; b; c]))).
+    { unfold s1. apply after_mantissa. exact Hm. }
+    assert (Hh1 : has_digit s1 = true).
+    { unfold s1. rewrite after_has_digit. cbn [nonempty]. apply orb_true_r. }
+    assert (Hal1 : aligned_comma (prefix_len s1) (comma_pos s1) (i + 4) = true).
+    { rewrite Hc1. cbn [aligned_comma]. lia. }
+    assert (Hi1 : 0 < i + 4) by lia.
+    destruct (IH s1 (i + 4) (pre ++ [a; b; c]) Hs1 Hal1 Hi1 Hm1)
+      as (s' & i' & Hrun & Hlen & Hcp & Hfm & Hmt & Hsc & Hpl & Hsg & Hhd & Hle & Hnil).
+    exists s', i'. cbn [nonempty].
+    split; [exact Hrun|].
+    split; [cbn [length] in *; lia|].
+    split.
+    { destruct gs as [|g gs'].
+      - destruct (Hnil eq_refl) as [-> ->]. exact Hc1.
+      - exact Hcp. }
+    split.
+    { destruct gs as [|g gs']; cbn [nonempty] in Hfm; rewrite Hfm; [exact Hf1|reflexivity]. }
+    split.
+    { rewrite Hmt. rewrite <- app_assoc. reflexivity. }
+    split; [exact Hsc|].
+    split; [congruence|].
+    split; [congruence|].
+    split.
+    { rewrite Hhd, Hh1. rewrite orb_true_r. reflexivity. }
+    split; [lia|].
+    intros Hx. discriminate.
+Qed.
+
+Definition s_init (ng : bool) : st := if ng then sgn_st st0 else st0.
+Definition p_of (ng : bool) : N := if ng then 1 else 0.
+
+Lemma run'_strip : forall l ng body,
+  strip l = (ng, body) ->
+  run' st0 0 l = run' (s_init ng) (p_of ng) body /\
+  N.of_nat (length l) = p_of ng + N.of_nat (length body) /\
+  (ng = false -> forall r, body <> 45 :: r).
+Proof.
+  intros [|x r] ng body H.
+  - cbn in H. inversion H; subst. repeat split. intros _ r Hr. discriminate.
+  - cbn [strip] in H. destruct (x =? 45) eqn:E.
+    + inversion H; subst. apply N.eqb_eq in E. subst x.
+      split; [reflexivity|]. split; [cbn [length p_of]; lia|]. discriminate.
+    + inversion H; subst. split; [reflexivity|]. split; [cbn [p_of]; lia|].
+      intros _ r' Hr. inversion Hr; subst. discriminate.
+Qed.
+
+Definition grp_ok (g0 : list N) : bool := (1 <=? length g0)%nat && (length g0 <=? 3)%nat.
+
+Lemma int_phase : forall l ng body g0 r1 gs r2,
+  strip l = (ng, body) -> span_digits body = (g0, r1) ->
+  (if grp_ok g0 then groups r1 else ([], r1)) = (gs, r2) ->
+  exists s2 i2,
+    run' st0 0 l = run' s2 i2 r2 /\
+    i2 + N.of_nat (length r2) = N.of_nat (length l) /\
+    comma_pos s2 = (if nonempty gs then Some i2 else None) /\
+    format s2 = (if nonempty gs then Some Comma3Dot
+                 else if (4 <=? length g0)%nat then Some Plain else None) /\
+    mantissa s2 = Z.of_N (digits_val (g0 ++ gs)) /\
+    sc s2 = None /\ prefix_len s2 = p_of ng /\
+    sign s2 = (if ng then (-1)%Z else 1%Z) /\
+    has_digit s2 = nonempty (g0 ++ gs) /\
+    (gs = [] -> i2 = p_of ng + N.of_nat (length g0) /\ r2 = r1) /\
+    (gs <> [] -> 0 < i2 /\ grp_ok g0 = true) /\
+    (grp_ok g0 = true -> stops r2).
+Proof.
+  intros l ng body g0 r1 gs r2 Hstrip Hspan Hgrp.
+  destruct (run'_strip _ _ _ Hstrip) as (Hrun0 & Hlen0 & _).
+  destruct (span_digits_spec _ _ _ Hspan) as (Hbody & Hdig & _).
+  set (s0 := s_init ng) in *. set (p := p_of ng) in *.
+  assert (Hs0c : comma_pos s0 = None) by (unfold s0; destruct ng; reflexivity).
+  assert (Hs0s : sc s0 = None) by (unfold s0; destruct ng; reflexivity).
+  assert (Hs0f : format s0 = None) by (unfold s0; destruct ng; reflexivity).
+  assert (Hs0m : mantissa s0 = Z.of_N (digits_val [])) by (unfold s0; destruct ng; reflexivity).
+  assert (Hs0p : prefix_len s0 = p) by (unfold s0, p; destruct ng; reflexivity).
+  assert (Hs0g : sign s0 = (if ng then (-1)%Z else 1%Z)) by (unfold s0; destruct ng; reflexivity).
+  assert (Hs0h : has_digit s0 = false) by (unfold s0; destruct ng; reflexivity).
+  assert (Hrun1 : run' st0 0 l = run' (after s0 p g0) (p + N.of_nat (length g0)) r1).
+  { rewrite Hrun0, Hbody. apply run'_digits; [exact Hdig|]. intros q Hq. congruence. }
+  set (s1 := after s0 p g0) in *. set (i1 := p + N.of_nat (length g0)) in *.
+  assert (Hs1c : comma_pos s1 = None) by (unfold s1; rewrite after_comma_pos; exact Hs0c).
+  assert (Hs1s : sc s1 = None) by (apply after_sc_none; exact Hs0s).
+  assert (Hs1p : prefix_len s1 = p) by (unfold s1; rewrite after_prefix_len; exact Hs0p).
+  assert (Hs1g : sign s1 = (if ng then (-1)%Z else 1%Z)) by (unfold s1; rewrite after_sign; exact Hs0g).
+  assert (Hs1h : has_digit s1 = nonempty g0).
+  { unfold s1. rewrite after_has_digit, Hs0h. reflexivity. }
+  assert (Hs1m : mantissa s1 = Z.of_N (digits_val g0)).
+  { unfold s1. rewrite (after_mantissa _ _ _ [] Hs0m). reflexivity. }
+  assert (Hs1f : format s1 = if (4 <=? length g0)%nat then Some Plain else None).
+  { unfold s1. rewrite (after_format_none _ _ _ Hs0s Hs0f), Hs0p.
+    destruct g0 as [|c g0']; [reflexivity|]. cbn [nonempty andb].
+    destruct (4 <=? length (c :: g0'))%nat eqn:E.
+    - assert (E' : (3 + p + 1 <=? p + N.of_nat (length (c :: g0'))) = true) by lia.
+      rewrite E'. reflexivity.
+    - assert (E' : (3 + p + 1 <=? p + N.of_nat (length (c :: g0'))) = false) by lia.
+      rewrite E'. reflexivity. }
+  assert (Hlen1 : i1 + N.of_nat (length r1) = N.of_nat (length l)).
+  { rewrite Hlen0, Hbody, app_length. unfold i1. lia. }
+  destruct (grp_ok g0) eqn:Eg.
+  - (* groups attempted *)
+    apply groups_Groups in Hgrp.
+    assert (Hal : aligned_comma (prefix_len s1) (comma_pos s1) i1 = true).
+    { rewrite Hs1c, Hs1p. cbn [aligned_comma]. unfold grp_ok in Eg. unfold i1. lia. }
+    assert (Hi1 : 0 < i1) by (unfold grp_ok in Eg; unfold i1; lia).
+    destruct (run'_groups _ _ _ Hgrp s1 i1 g0 Hs1s Hal Hi1 Hs1m)
+      as (s2 & i2 & Hrun & Hlen & Hcp & Hfm & Hmt & Hsc & Hpl & Hsg & Hhd & Hle & Hnil).
+    exists s2, i2.
+    split; [congruence|].
+    split; [lia|].
+    split; [rewrite Hcp, Hs1c; reflexivity|].
+    split; [rewrite Hfm, Hs1f; reflexivity|].
+    split; [exact Hmt|].
+    split; [exact Hsc|].
+    split; [congruence|].
+    split; [congruence|].
+    split.
+    { rewrite Hhd, Hs1h. destruct g0; destruct gs; reflexivity. }
+    split.
+    { intros ->. destruct (Hnil eq_refl) as [_ ->]. split; [reflexivity|].
+      inversion Hgrp; subst. reflexivity. }
+    split.
+    { intros _. split; [lia|reflexivity]. }
+    intros _. clear - Hgrp. induction Hgrp; assumption.
+  - inversion Hgrp; subst gs r2.
+    exists s1, i1. cbn [nonempty]. rewrite app_nil_r.
+    repeat split; try assumption; try congruence; try discriminate.
+Qed.
